@@ -210,7 +210,11 @@ def e2e(ctx, rows):
             t.add(["", "f"], ["directory", "file"])
             for i in range(n_commits):
                 t.put_file_bytes_non_atomic("f", b"l%d\n" % i)
-                revs.append(t.commit("c%d" % i, rev_id=b"r%04d" % i))
+                try:
+                    revs.append(t.commit("c%d" % i, rev_id=b"r%04d" % i))
+                except Exception as e:     # the failing autopack decision is already recorded as a row and judged
+                    ctx.cov.setdefault("e2e_aborted", []).append("commit: %s" % type(e).__name__)
+                    break
         src = b.repository
         # B: fetch the history in random batches (packs of 1..12 revisions)
         for k in range(2 if ctx.quick else 12):
@@ -219,7 +223,11 @@ def e2e(ctx, rows):
             pos = 0
             while pos < len(revs):
                 pos = min(len(revs), pos + ctx.rng.choice([1, 1, 2, 3, 5, 9, 10, 11, 12]))
-                tgt.fetch(src, revision_id=revs[pos - 1])
+                try:
+                    tgt.fetch(src, revision_id=revs[pos - 1])
+                except Exception as e:     # recorded as a row and judged
+                    ctx.cov.setdefault("e2e_aborted", []).append("fetch: %s" % type(e).__name__)
+                    break
         # C: two writers with overlapping write groups: the same revisions end up in two packs
         for k in range(2 if ctx.quick else 8):
             url = srv.get_url() + "c%d" % k
@@ -249,7 +257,7 @@ def e2e(ctx, rows):
                                 rb._pack_collection.reload_pack_names()
                             try:
                                 r.commit_write_group()
-                            except errors.BzrError as e:
+                            except Exception as e:
                                 # carrying out a plan over packs with duplicated content can fail in the Packer (the
                                 # combined pack is byte-identical to an existing one): execution, not planning - noted
                                 ctx.cov.setdefault("e2e_execution_errors", []).append(str(e)[:120])
@@ -283,11 +291,15 @@ def e2e(ctx, rows):
             t.add(["", "f"], ["directory", "file"])
             for i in range(25 if ctx.quick else 60):
                 t.put_file_bytes_non_atomic("f", b"l%d\n" % i)
-                rid = t.commit("c%d" % i, rev_id=b"s%04d" % i)
-                if i % 4 == 1:
-                    repo.start_write_group()
-                    repo.add_signature_text(rid, b"sig %d" % i)
-                    repo.commit_write_group()
+                try:
+                    rid = t.commit("c%d" % i, rev_id=b"s%04d" % i)
+                    if i % 4 == 1:
+                        repo.start_write_group()
+                        repo.add_signature_text(rid, b"sig %d" % i)
+                        repo.commit_write_group()
+                except Exception as e:     # recorded as a row and judged
+                    ctx.cov.setdefault("e2e_aborted", []).append("signature: %s" % type(e).__name__)
+                    break
     finally:
         srv.stop_server()
 
